@@ -680,12 +680,18 @@ fn expand_brace_range(tokens: &mut types::Tokens) {
         if start > end {
             while n >= end {
                 result.push(format!("{}", n));
-                n -= incr;
+                n = match n.checked_sub(incr) {
+                    Some(x) => x,
+                    None => break,
+                };
             }
         } else {
             while n <= end {
                 result.push(format!("{}", n));
-                n += incr;
+                n = match n.checked_add(incr) {
+                    Some(x) => x,
+                    None => break,
+                };
             }
         }
 
